@@ -867,26 +867,36 @@ def clause_i(c: Check):
             insts = it.instantiate(tr, State(), {'lines_selector': sel, 'preserve_new_lines': K(preserve),
                                                  'compiled_regular_expression': pat, 'replacement': rep})
             key = 'replace/%s/%s' % ('preserve-new-lines' if preserve else 'default', 'at' if selector else 'every-line')
-            c.require(len(insts) == 1, 'C05-i: %d constructor paths for %s' % (len(insts), key))
-            obj, st = insts[0]
-            ap = st.heap.get((obj.oid, '_replacer_applier'))
-            con = util.constructed(ix, ap)
-            want_ap = wi if selector else wo
-            ok = con is not None and con[0] == want_ap.key
-            replacer = None
-            if ok:
-                args = list(con[3].values())
-                replacer = args[-1]
-                if selector:
-                    ok = args[0] is sel
-            rcon = util.constructed(ix, replacer) if replacer is not None else None
-            want_r = excl if preserve else incl
-            ok = ok and rcon is not None and rcon[0] == want_r.key and list(rcon[3].values())[:2] == [pat, rep] \
-                 and all(a is b for a, b in zip(list(rcon[3].values())[:2], [pat, rep]))
-            c.expect(ok, 'C05-i', key + '/construction',
-                     '%s builds %s with %s (expected %s with a %s of (pattern, replacement))' % (
-                         key, con[0].split(':')[-1] if con else util.describe(ap),
-                         rcon[0].split(':')[-1] if rcon else '?', want_ap.name, want_r.name), tr.loc())
+            c.require(1 <= len(insts) <= 8, 'C05-i: %d constructor paths for %s' % (len(insts), key))
+            for obj, st in insts:
+                _judge_replace_construction(c, ix, obj, st, key, selector, preserve, sel, pat, rep, wi, wo, incl, excl, tr)
+    _replace_rest(c, ix, fo, base, incl, excl, wi, wo, tr)
+
+
+def _judge_replace_construction(c, ix, obj, st, key, selector, preserve, sel, pat, rep, wi, wo, incl, excl, tr):
+    ap = st.heap.get((obj.oid, '_replacer_applier'))
+    con = util.constructed(ix, ap)
+    want_ap = wi if selector else wo
+    ok = con is not None and con[0] == want_ap.key
+    rcon = None
+    if ok:
+        args = list(con[3].values())
+        for a in args:
+            rc = util.constructed(ix, a)
+            if rc is not None and rc[0] in (incl.key, excl.key):
+                rcon = rc
+        if selector:
+            ok = any(a is sel for a in args)
+    want_r = excl if preserve else incl
+    ok = ok and rcon is not None and rcon[0] == want_r.key and len(rcon[3]) >= 2 \
+         and all(a is b for a, b in zip(list(rcon[3].values())[:2], [pat, rep]))
+    c.expect(ok, 'C05-i', key + '/construction',
+             '%s builds %s with %s (expected %s with a %s of (pattern, replacement))' % (
+                 key, con[0].split(':')[-1] if con else util.describe(ap),
+                 rcon[0].split(':')[-1] if rcon else '?', want_ap.name, want_r.name), tr.loc())
+
+
+def _replace_rest(c, ix, fo, base, incl, excl, wi, wo, tr):
     # (2) + (3)
     sub = ix.class_member(base, '_sub')
 
@@ -902,27 +912,38 @@ def clause_i(c: Check):
             it = Interp(ix, fo, H1())
             obj = it.new_obj(cls)
             body = Sym('body')
+            body.excludes = '\n'      # the new-line of a line is its last character
             line = StrCat([body, K('\n')]) if shape == 'with-new-line' else StrCat([body, K('x')])
             for p in it.run_function(proc, {proc.positional_params()[1].arg: line}, State(), recv=obj):
                 c.count()
                 if p.kind != 'return':
                     continue
+                empties = [x for e in p.trace if e.kind == 'str-empty' for x in e.data]
                 v = p.val
-                tail = None
-                if isinstance(v, StrCat) and len(v.parts) == 2 and isinstance(v.parts[1], K):
-                    v, tail = v.parts[0], v.parts[1].v
-                nm, recv, args, ev = call_of(p, v)
-                arg = args[0] if len(args) == 1 else None
+                sc = v if isinstance(v, StrCat) else StrCat([v])
+                subs = [q for q in sc.parts if call_of(p, q)[0] == '_sub']
+                key = '%s.process/%s' % (cls.name, shape)
+                if not subs:
+                    plain = all(isinstance(q, K) or any(q is b for b in (body,)) for q in sc.parts)
+                    c.require(plain, 'C05-i: the result %r of %s is not understood' % (sc, key))
+                    c.bad('C05-i', key, '%s.process on a line %s%s gives %r: the line is given without the substitution '
+                                        'having been applied (a pattern may match the empty text too)' % (
+                                            cls.name, shape, ' that is empty' if any(body is e for e in empties) else '', sc), proc.loc())
+                    continue
+                c.require(len(subs) == 1 and sc.parts[0] is subs[0] and all(isinstance(q, K) for q in sc.parts[1:]),
+                          'C05-i: the result %r of %s is not understood' % (sc, key))
+                tail = ''.join(q.v for q in sc.parts[1:])
+                arg = call_of(p, subs[0])[2]
+                arg = arg[0] if len(arg) == 1 else None
+                asc = arg if isinstance(arg, StrCat) else (StrCat([arg]) if arg is not None else None)
                 if cls is excl and shape == 'with-new-line':
-                    ok = nm == '_sub' and tail == '\n' and isinstance(arg, StrCat) and arg.key() == StrCat([body]).key()
-                    want = "_sub(<line without its new-line>) + '\\n'"
+                    ok = asc is not None and asc.key(empties) == StrCat([body]).key(empties) and tail == '\n'
+                    want = "_sub(<the line without its new-line>) + '\\n'"
                 else:
-                    ok = nm == '_sub' and tail is None and arg is line
+                    ok = asc is not None and asc.key(empties) == line.key(empties) and tail == ''
                     want = '_sub(<the line>)'
-                c.expect(ok, 'C05-i', '%s.process/%s' % (cls.name, shape),
-                         '%s.process on a line %s gives %s%s (expected %s)' % (
-                             cls.name, shape, util.describe(p.val) if not isinstance(p.val, StrCat) else repr(p.val),
-                             ' of %r' % (arg,) if arg is not None else '', want), proc.loc())
+                c.expect(ok, 'C05-i', key, '%s.process on a line %s gives _sub(%r) + %r (expected %s)' % (
+                    cls.name, shape, asc, tail, want), proc.loc())
     it = Interp(ix, fo, H1())
     pat, rep = Sym('pattern'), Sym('replacement')
     insts = it.instantiate(incl, State(), {'compiled_regular_expression': pat, 'replacement': rep})
@@ -972,6 +993,23 @@ def clause_i(c: Check):
                          'matches' if matches else 'does not match',
                          util.describe(p.val) if not isinstance(p.val, StrCat) else repr(p.val),
                          'the replacer applied to the line as read' if matches else 'the line as read, unchanged'), proc.loc())
+    # (5) a substitution may remove all of a last line, or add / remove new-lines: the output of both appliers is
+    # divided into lines anew, on every path
+    redivide = ix.func(RP + ':_lines_iterator_from_replacements')
+    for ap_cls in (wo, wi):
+        pr = ix.class_member(ap_cls, 'process')
+        n_ret = 0
+        for p in util.func_paths(ix, fo, pr, H1()):
+            if p.kind != 'return':
+                continue
+            n_ret += 1
+            nm, _, args, ev = call_of(p, p.val)
+            guards = [('' if t else 'not ') + unparse(g) for g, t in p.guards]
+            c.expect(ev is not None and ev.data.get('callee') is redivide, 'C05-i', '%s.process/output-divided-into-lines-anew' % ap_cls.name,
+                     '%s.process gives %s%s - not the replacements divided into lines anew: a last line that is replaced '
+                     'by nothing stays as an empty line element, a replacement with a new-line as one line' % (
+                         ap_cls.name, util.describe(p.val), (' when ' + ', '.join(guards)) if guards else ''), pr.loc())
+        c.require(n_ret >= 1, 'C05-i: %s.process has no returning path' % ap_cls.name)
     # the applier with a selector feeds the pairs of the model constructor
     wproc = ix.class_member(wi, 'process')
     om = ix.func(MC + ':original_and_model_iter_from_file_line_iter')
